@@ -2,6 +2,7 @@ package persist
 
 import (
 	"encoding/binary"
+	"flag"
 	"fmt"
 	"strings"
 	"testing"
@@ -53,9 +54,22 @@ func inBubble(t *testing.T, body func()) {
 		})
 	}()
 	if carried != nil {
-		panic(carried)
+		// rapid's shrinker recognises "the same failure" by the traceback
+		// only; all panics leave the bubble through here, so rapid's own
+		// invalid-data signal (bit stream overrun while shrinking) must be
+		// re-raised from a different function than real failures
+		if strings.HasSuffix(fmt.Sprintf("%T", carried), "invalidData") {
+			repanicInvalidData(carried)
+		}
+		repanicFailure(carried)
 	}
 }
+
+//go:noinline
+func repanicInvalidData(v any) { panic(v) }
+
+//go:noinline
+func repanicFailure(v any) { panic(v) }
 
 // rawStateTime reads the timestamp of the state record at off straight from
 // the storage (8 bytes big endian after the 8 byte marker).
@@ -84,7 +98,8 @@ func TestC19(t *testing.T) {
 			jr.done()
 		}
 	}()
-	rt.Check(t, rec, "asof", 500, 5000, func(rt_ *rapid.T) {
+	flag.Set("rapid.shrinktime", "5s") // rapid cannot shrink these interactive histories much; TestMinimize does
+	rt.Check(t, rec, "asof", 500, 4000, func(rt_ *rapid.T) {
 		inBubble(t, func() { c19Case(rt_, rec, jr) })
 	})
 }
